@@ -352,6 +352,7 @@ def stepOp (k : Nat) (st : St) (op : Op) (out : Sexp) : Option (Sexp × Bool × 
       | some b =>
         let shown := st.shownB ++ p
         let cls :=
+          if !(shown.all (·.obj.isSome)) then "-" else   -- unevaluated candidates: outside the quantifier
           match b with
           | none => if shown.isEmpty then "-" else "best-not-min"
           | some bi =>
@@ -422,8 +423,12 @@ def runOps (k : Nat) : St → List Op → List Sexp → Option (List Sexp × Boo
   | _, [], [] => some ([], true, "-")
   | st, op :: ops, o :: outs => do
     let (m, a, c, st') ← stepOp k st op o
-    let (ms, as, cs) ← runOps k st' ops outs
-    pure (m :: ms, a && as, if c != "-" then c else cs)
+    -- a panic ends the history (the harness stops there: the state may be half-updated)
+    if Sexp.beq o (.atom "panic") || Sexp.beq m (.atom "panic") then
+      pure ([m], a && outs.isEmpty, c)
+    else
+      let (ms, as, cs) ← runOps k st' ops outs
+      pure (m :: ms, a && as, if c != "-" then c else cs)
   | _, _, _ => none
 
 def comp (input implOut : Sexp) : Option Verdict := do
